@@ -268,6 +268,11 @@ def _filter_template(name: str, arity: int):
     return _TPL[key]
 
 
+for _n in sorted(ENV.filters):
+    for _a in (0, 1, 2):
+        _filter_template(_n, _a)  # parse at import, never under the tracer
+
+
 def _only_liquid(fn, **data) -> bool:
     if fn is None:
         return False
